@@ -34,6 +34,7 @@ type funcTarget struct {
 	skeleton bool   // keep control structure and returns only
 	conds    bool   // emit the conditions of the function's top-level `if` statements, in source order, as boolean functions of their free variables
 	prefix   bool   // translate the leading statements only: stop (result 0 = "goes on") at the first top-level statement outside the subset
+	valueOf  string // translate the leading statements up to the first store of this local variable into the receiver's memory and return its value there
 	fragTag  string // fragment mode: translate the first `switch <fragTag>` statement ...
 	fragOut  string // ... as a function of fragTag returning the final value of fragOut
 }
@@ -47,6 +48,7 @@ var funcTargets = []funcTarget{
 	{pkg: "gws", recv: "frameHeader", name: "GetMask"},
 	{pkg: "gws", recv: "frameHeader", name: "GetLengthCode"},
 	{pkg: "gws", recv: "frameHeader", name: "SetLength", skeleton: true},
+	{pkg: "gws", recv: "frameHeader", name: "GenerateHeader", valueOf: "b0"},
 	{pkg: "gws", recv: "Opcode", name: "isDataFrame"},
 	{pkg: "gws", recv: "Conn", name: "emitClose", fragTag: "realCode", fragOut: "responseCode"},
 	{pkg: "gws", recv: "Conn", name: "checkMask"},
@@ -737,6 +739,27 @@ func genFuncs(pkgs []*packages.Package) string {
 				k = "v_" + fd.Type.Results.List[0].Names[0].Name
 			}
 			list := fd.Body.List
+			if tg.valueOf != "" {
+				// statements up to `<receiver memory> = <valueOf>`; the value of the variable at that point is the result
+				cut := -1
+				for i, st := range list {
+					if as, ok := st.(*ast.AssignStmt); ok && len(as.Lhs) == 1 && len(as.Rhs) == 1 {
+						_, lhsIsIdent := as.Lhs[0].(*ast.Ident)
+						if id, ok := as.Rhs[0].(*ast.Ident); ok && id.Name == tg.valueOf && !lhsIsIdent {
+							cut = i
+							break
+						}
+					}
+				}
+				if cut < 0 {
+					unsupported = append(unsupported, name+": store of "+tg.valueOf+" not found")
+					continue
+				}
+				name += "_" + tg.valueOf
+				list = list[:cut]
+				k = "v_" + tg.valueOf
+				named = false
+			}
 			if tg.prefix {
 				// the longest leading run of top-level statements inside the subset
 				for n := len(list); n >= 0; n-- {
